@@ -70,6 +70,24 @@ func scnRestart2(name string, k kfn, first Item) *Scenario {
 	return s
 }
 
+// S-restart-follower: B leads and shuts down with DeleteKey; the follower A is restarted
+// (Stop, Start 4 ms later) right when its acquisition round's Create is in flight.
+func scnRestartFollower(name string, k kfn, first Item) *Scenario {
+	s := k(&Scenario{Name: name})
+	s.Insts = insts("B", "A", "C")
+	s.Script = starts("B", "A", "C")
+	tDel := 2*s.H + 53*ms
+	s.Script = append(s.Script, Item{At: tDel, Actor: "stopB", Do: "stopctx", Inst: "B", DeleteKey: true})
+	// A's round: delete event at tDel, jitter 55 ms (default draw) -> Create at tDel+55ms
+	first.At, first.Actor, first.Inst = tDel+55*ms+500*us, "lifeA", "A"
+	s.Script = append(s.Script, first, Item{At: tDel + 59*ms, Actor: "lifeA", Do: "start", Inst: "A"})
+	s.Horizon = tDel + s.TTL + 1500*ms
+	s = s.faultFree()
+	s.SplitApply = true
+	s.RandMenu = nil
+	return s
+}
+
 var stopVariants = []Item{
 	{Do: "stop"},
 	{Do: "stopctx"},
@@ -127,6 +145,7 @@ func c02Plan(tier string) []PlanItem {
 		items = append(items, PlanItem{scnRestart("restart/"+stopName(sv)+"-K1", K1, sv), d})
 	}
 	items = append(items,
+		PlanItem{scnRestartFollower("restart-follower/stop-K1", K1, Item{Do: "stop"}), d},
 		PlanItem{scnRestart2("restart2/stop-then-stopdel-K1", K1, Item{Do: "stop"}), d},
 		PlanItem{scnRestart2("restart2/stopctx-then-stopdel-K1", K1, Item{Do: "stopctx"}), d},
 		PlanItem{dropAll(scnRestart2("restart2/stop-then-stopdel-K1-dropall", K1, Item{Do: "stop"})), d})
